@@ -62,6 +62,11 @@ Definition py_get (s : state) (k : pykey) : state * pyres :=
 Definition with_mem (s : state) (m : list particle) (ob : nat) : state :=
   mkS (tcfg s) m (sN s) (sNact s) (sNvar s) (tab s) (nlook s) (tree s) ob.
 
+(* ctypes converts a Python int argument to a C int / uint32_t by keeping its low 32 bits, without any range check
+   (values of 2^64 and beyond raise ArgumentError before the call; not modelled) *)
+Definition wrap_int32 (z : Z) : Z := ((z + 2147483648) mod 4294967296 - 2147483648)%Z.
+Definition wrap_uint32 (z : Z) : N := Z.to_N (z mod 4294967296).
+
 Definition of_result (r : result) : pyres := match r with RFail => PRRuntimeError | _ => PRNone end.
 
 Definition py_step (s : state) (o : pyop) : state * pyres :=
@@ -76,14 +81,14 @@ Definition py_step (s : state) (o : pyop) : state * pyres :=
   | PyDelItem _ => (s, PRNone)
   | PySlice a b c => (s, PRList (py_slice (sN s) a b c))
   | PyLen => (s, PRLen (sN s))
-  | PyAdd p => (add s p, PRNone)
+  | PyAdd p => let '(s1, r) := add_op s p in (s1, of_result r)     (* a refused add raises RuntimeError *)
   | PyRemove index hash keep =>
       (* both calls are made when both arguments are given; an error of either surfaces as RuntimeError *)
-      let '(s1, r1) := match index with Some z => remove_idx s z keep | None => (s, RVoid) end in
+      let '(s1, r1) := match index with Some z => remove_idx s (wrap_int32 z) keep | None => (s, RVoid) end in
       let '(s2, r2) := match hash with
                        | Some k => match key_hash k with
                                    | Some h => remove_hash s1 h keep
-                                   | None => match k with KInt z => remove_hash s1 (Z.to_N z) keep | _ => (s1, RVoid) end
+                                   | None => match k with KInt z => remove_hash s1 (wrap_uint32 z) keep | _ => (s1, RVoid) end
                                    end
                        | None => (s1, RVoid) end in
       (s2, match r1 with RFail => PRRuntimeError | _ => of_result r2 end)
@@ -193,6 +198,29 @@ Proof.
     + unfold abs, with_mem in *; cbn in *. all: try (injection A as A0 A1 A2 A3 A4; rewrite A0, A2, A3, A4, M, N1; f_equal; apply firstn_upd_lt; lia).
   - inversion H; subst; clear H. split; auto.
   - inversion H; subst; clear H. split; auto.
+Qed.
+
+(* Corner: Python ints beyond 32 bits.  sim.remove(index=z) hands z to ctypes, which keeps the low 32 bits:
+   an index far out of range can denote a live particle.  "An out-of-range index fails and leaves the
+   simulation unchanged" is therefore FALSE through Simulation.remove: index 2^32 removes particle 0. *)
+Definition one_particle : state := fst (run (init false) [Add (mkP 1 1 false)]).
+Theorem py_remove_big_index_refuted : exists s z s' r,
+  wf s /\ (Z.of_nat (sN s) <= z)%Z /\ py_step s (PyRemove (Some z) None true) = (s', r) /\ r = PRNone /\ sN s' < sN s.
+Proof.
+  exists one_particle, 4294967296%Z. eexists. eexists.
+  split; [split; vm_compute; lia|]. split; [vm_compute; discriminate|].
+  split; [vm_compute; reflexivity|]. split; [reflexivity|vm_compute; lia].
+Qed.
+(* ... it holds for indices that fit a C int *)
+Theorem py_remove_index_rejected_int32 : forall s z keep s' r, wf s ->
+  (-2147483648 <= z < 2147483648)%Z -> (z < 0 \/ Z.of_nat (sN s) <= z)%Z ->
+  py_step s (PyRemove (Some z) None keep) = (s', r) -> r = PRRuntimeError /\ s' = s.
+Proof.
+  intros s z keep s' r Hwf Hr Hz H. cbn [py_step] in H.
+  assert (W : wrap_int32 z = z).
+  { unfold wrap_int32. rewrite Z.mod_small by lia. lia. }
+  rewrite W in H. unfold remove_idx in H.
+  replace ((Z.of_nat (sN s) <=? z) || (z <? 0))%Z with true in H by lia. inversion H; subst. auto.
 Qed.
 
 (* ---------------------------------------------------------------- glue for the correspondence check *)
